@@ -398,7 +398,7 @@ def r7(ctx):
     n = 0
     for b in ctx.w.find(r"^turmoil_fs::shim::tokio::fs::OpenOptions::\w+$"):
         name = b.id.rsplit("::", 1)[1]
-        fw = [t["f"] for bb, t in b.calls(re.compile(r"^turmoil_fs::shim::std::fs::OpenOptions::\w+$"))]
+        fw = [t["f"] for fb in ctx.w.family(b.id) for bb, t in fb.calls(re.compile(r"^turmoil_fs::shim::std::fs::OpenOptions::\w+$"))]
         if not fw or name in ("new", "open", "as_inner", "as_inner_mut", "from"):
             continue
         n += 1
